@@ -26,7 +26,8 @@ ASSUMPTIONS = [
 ]
 REQUIRED_CLASSES = ["nontrivial", "nothing_inserted", "single_node", "closed", "retracted_handles",
                     "repeated_node", "loop_piece", "deep(>=5_levels)", "lattice", "multi_piece", "hook",
-                    "flatness_relative_to_piece", "tiny_scale"]
+                    "flatness_relative_to_piece", "tiny_scale", "gentle_bow", "midpoint_on_end_node",
+                    "points_as_tuples", "points_as_lists"]
 QUICK_SHARDS = 8
 THOROUGH_SHARDS = 16
 LINE_BUDGET = 3_000_000
@@ -87,13 +88,16 @@ def body(ctx, case):
     nodes = case["nodes"]
     flat = case["flat"]
     scale = case["scale"]
-    s_p = [[list(h) for h in node] for node in nodes]
+    # callers hand in points as lists (cubicsuperpath) or as tuples (the repository's own tests): both are exercised
+    mk = tuple if case.get("tuples") else list
+    s_p = [[mk(h) for h in node] for node in nodes]
     original = [[tuple(h) for h in node] for node in nodes]
     classes = set(case.get("tags", []))
     if len(nodes) == 1:
         classes.add("single_node")
     if len(nodes) > 2:
         classes.add("multi_piece")
+    classes.add("points_as_tuples" if case.get("tuples") else "points_as_lists")
     if scale <= 1e-5:
         classes.add("tiny_scale")
     try:
@@ -152,7 +156,11 @@ def body(ctx, case):
         classes.add("deep(>=5_levels)")
     # (iii) flatness of every resulting piece
     fflat = F(flat)
-    limit = (fflat * (1 + F(1, 10 ** 9))) ** 2
+    # the implementation measures the distance with a float cross product of coordinates of size `extent`: its
+    # rounding error is about eps * extent, i.e. a relative error of eps * extent / flat on a distance near `flat`
+    extent = max([abs(c) for node in res for h in node for c in h] + [F(scale)])
+    slack = max(F(1, 10 ** 9), F(64, 2 ** 52) * extent / fflat)
+    limit = (fflat * (1 + slack)) ** 2
     for j in range(len(res) - 1):
         a, b = res[j][1], res[j + 1][1]
         for inner in (res[j][2], res[j + 1][0]):
@@ -204,6 +212,37 @@ def cases(draw):
         tags.add("closed")
         if n == 2:
             tags.add("loop_piece")
+    special = draw(st.integers(0, 11))
+    if special == 0:
+        # a long stroke that is only gently bowed: the chord is 1e5..1e9 times the flatness and the handles sit a
+        # few flatnesses off the chord (accept/split is decided by a tiny cross product of large coordinates)
+        length = scale * draw(st.sampled_from([1.0, 10.0]))
+        ratio = 10.0 ** draw(st.integers(5, 9))
+        flat_g = length / ratio
+        ang = draw(st.integers(0, 359)) * math.pi / 180
+        ux, uy = math.cos(ang), math.sin(ang)
+        x0, y0 = coord(), coord()
+        m1 = draw(st.sampled_from([0.0, 0.6, 1.2, 2.3, 5.0, -2.3, 20.0]))
+        m2 = draw(st.sampled_from([0.0, 0.6, 1.2, 2.3, 5.0, -2.3, 20.0]))
+        p0 = [x0, y0]
+        p3 = [x0 + length * ux, y0 + length * uy]
+        h1 = [x0 + length * ux / 3 - m1 * flat_g * uy, y0 + length * uy / 3 + m1 * flat_g * ux]
+        h2 = [x0 + 2 * length * ux / 3 - m2 * flat_g * uy, y0 + 2 * length * uy / 3 + m2 * flat_g * ux]
+        nodes = [[list(p0), p0, h1], [h2, p3, list(p3)]]
+        return {"nodes": nodes, "flat": flat_g, "scale": scale, "tags": sorted(tags | {"gentle_bow"})}
+    if special == 1:
+        # coincidence: the point at t = 1/2 of a loop-like piece lands exactly on one of its own end nodes
+        # (p0 + 3 p1 + 3 p2 + p3 = 8 p0, all on a lattice so that it is exact)
+        k = draw(st.sampled_from([1, 2, 4]))
+        p0 = [float(draw(st.integers(-3, 3))) * scale, float(draw(st.integers(-3, 3))) * scale]
+        p1 = [p0[0] + k * scale * draw(st.integers(-3, 3)), p0[1] + k * scale * draw(st.integers(-3, 3))]
+        p2 = [p0[0] + k * scale * draw(st.integers(-3, 3)), p0[1] + k * scale * draw(st.integers(-3, 3))]
+        p3 = [7 * p0[0] - 3 * p1[0] - 3 * p2[0], 7 * p0[1] - 3 * p1[1] - 3 * p2[1]]
+        if draw(st.booleans()):
+            p0, p1, p2, p3 = p3, p2, p1, p0                      # the midpoint lands on the far end node instead
+        nodes = [[list(p0), p0, p1], [p2, p3, list(p3)]]
+        flat_m = scale * draw(st.sampled_from([0.5, 0.1, 0.02]))
+        return {"nodes": nodes, "flat": flat_m, "scale": scale, "tags": sorted(tags | {"midpoint_on_end_node"})}
     if n >= 2 and draw(st.integers(0, 5)) == 0:
         # a tight hook: both inner handles of one piece sit together just past the far end of its chord
         k = draw(st.integers(0, n - 2))
@@ -230,6 +269,13 @@ def cases(draw):
     return {"nodes": nodes, "flat": flat, "scale": scale, "tags": sorted(tags)}
 
 
+@st.composite
+def typed_cases(draw):
+    case = draw(cases())
+    case["tuples"] = draw(st.booleans())
+    return case
+
+
 def fixed_cases():
     """Hand-picked shapes every run covers: loop with coincident end nodes, repeated node with retracted
     handles, straight line, S-curve, cusp."""
@@ -250,7 +296,7 @@ def fixed_cases():
 def run(ctx):
     ctx.exhaustive("fixed-shapes", fixed_cases(), body, "six hand-picked shapes (loop, repeated node, polygon, "
                    "S-curve, cusp, single node)")
-    ctx.given("generated", cases(), body, quick=800, thorough=40000)
+    ctx.given("generated", typed_cases(), body, quick=800, thorough=40000)
 
 
 def replay(ctx, part, case):
